@@ -1816,8 +1816,6 @@ lshpack_dec_decode (struct lshpack_dec *dec,
         }
         if (len > UINT16_MAX)
             return LSHPACK_ERR_TOO_LARGE;
-        while(len > 0 && isspace(*(name + len - 1)))
-            --len;
         if (len == 0)
             return LSHPACK_ERR_BAD_DATA;
 
